@@ -490,6 +490,11 @@ class SourceCatalog:
         for attr in init_attr:
             setattr(newcls, attr, getattr(self, attr))
 
+        # the new catalog must have its own list of extra properties;
+        # otherwise adding or removing an extra property in one catalog
+        # would also change the list of the other
+        newcls._extra_properties = self._extra_properties.copy()
+
         # _labels determines ordering and isscalar
         attr = '_labels'
         setattr(newcls, attr, getattr(self, attr)[index])
